@@ -54,8 +54,8 @@ CONFIGS['gcc-asan-wrapnet'] = dict(cc='gcc', cxx='g++', cflags='-O1 -g ' + SAN, 
 HARNESSES = {}  # filled by props.py: name -> dict(src, config, libs, cxxflags, extra_srcs)
 
 
-def harness(name, src, config, libs='-lrapidcheck', cxxflags='', extra=()):
-    HARNESSES[name] = dict(src=src, config=config, libs=libs, cxxflags=cxxflags, extra=list(extra))
+def harness(name, src, config, libs='-lrapidcheck', cxxflags='', extra=(), linkflags=''):
+    HARNESSES[name] = dict(src=src, config=config, libs=libs, cxxflags=cxxflags, extra=list(extra), linkflags=linkflags)
 
 
 def ensure_ref():
@@ -161,7 +161,7 @@ def generate(harness_names):
             lines += ['build %s: cc %s' % (nesc(so), nesc(os.path.join(VERIF, src))), '  cc = ' + cxx, '  flags = ' + flags]
             hobjs.append(so)
         lines += ['build %s: link %s' % (nesc(out), ' '.join(nesc(i) for i in hobjs + [lib])), '  cxx = ' + cxx,
-                  '  flags = ' + base, '  libs = %s -lpthread -ldl -lrt' % d['libs'], '']
+                  '  flags = ' + base + ' ' + d.get('linkflags', ''), '  libs = %s -lpthread -ldl -lrt' % d['libs'], '']
     path = os.path.join(root, 'build.ninja')
     text = '\n'.join(lines) + '\n'
     old = open(path).read() if os.path.exists(path) else None
